@@ -3,10 +3,15 @@
 // Conformance harness for specs/ChainTypes.tla, dot/network part.
 //
 //	C14 (TestVerifNetMsgEnc): block announce, announce handshake and transaction messages encode to the
-//	     bytes of the TLA+ layouts and decode back.
+//	     bytes of the TLA+ layouts and decode back; block request / block response messages encode to the
+//	     bytes of the explicit protobuf layout (CtBlockRequestEnc / CtBlockResponseEnc on lib/PbWire.tla:
+//	     varint keys, length-delimited fields, proto3 presence rules) and decode back.
 //	C33 (TestVerifNetMsgDec): for TLC-generated inputs (valid encodings, every truncation, tag / length
 //	     perturbations, huge length prefixes) the decoder's verdict is ScDec's, an accepted message
-//	     re-encodes to the consumed prefix; no panic, bounded time and allocation.  Decoders without a
+//	     re-encodes to the consumed prefix; no panic, bounded time and allocation.  Block request /
+//	     response: every truncation of a valid message and protobuf-level variations (unknown fields,
+//	     repeated scalars, both oneof members, no oneof member, short number) with the verdict and the
+//	     canonical re-encoding of the TLA+ protobuf decoder (CtPbDec).  Decoders without a
 //	     modelled layout (light, block request/response protobuf, warp proof request, consensus message)
 //	     are driven with seeded mutations of valid messages and judged by no-panic / allocation /
 //	     "decode(encode(decode(x))) = decode(x)" alone.
@@ -19,6 +24,7 @@ import (
 	"math/rand"
 	"reflect"
 	"runtime"
+	"sort"
 	"strings"
 	"testing"
 	"time"
@@ -127,6 +133,217 @@ func vnBudget(n int) uint64 { return 256<<10 + 1024*uint64(n) }
 
 func vnLoad(t *testing.T) []vBehaviour { return vLoad(t, vIn(t, "behaviours.txt")) }
 
+
+// ---- protobuf block request / response values (specs/ChainTypes.tla BlockRequestVals / BlockResponseVals) ----
+
+type vnReqVal struct {
+	Fields int `json:"fields"`
+	From   struct {
+		K string          `json:"k"`
+		B json.RawMessage `json:"b"`
+	} `json:"from"`
+	Dir int             `json:"dir"`
+	Max json.RawMessage `json:"max"`
+}
+
+func vnRequest(raw json.RawMessage, zeroMaxAsPointer bool) *messages.BlockRequestMessage {
+	var v vnReqVal
+	if err := json.Unmarshal(raw, &v); err != nil {
+		panic("VERIF-INFRA blockrequest value: " + err.Error())
+	}
+	m := &messages.BlockRequestMessage{RequestedData: byte(v.Fields), Direction: messages.SyncDirection(v.Dir)}
+	if v.From.K == "hash" {
+		m.StartingBlock = *messages.NewFromBlock(common.BytesToHash(vnBytes(v.From.B)))
+	} else {
+		m.StartingBlock = *messages.NewFromBlock(uint(vnUint(v.From.B)))
+	}
+	if mx := uint32(vnUint(v.Max)); mx != 0 || zeroMaxAsPointer {
+		m.Max = &mx
+	}
+	return m
+}
+
+func vnRequestString(m *messages.BlockRequestMessage) string {
+	mx := "absent"
+	if m.Max != nil {
+		mx = fmt.Sprint(*m.Max)
+	}
+	return fmt.Sprintf("data=%d from=%T:%v dir=%d max=%s", m.RequestedData, m.StartingBlock.RawValue(), m.StartingBlock.RawValue(), m.Direction, mx)
+}
+
+type vnBlockDataVal struct {
+	Hash    json.RawMessage `json:"hash"`
+	Header  json.RawMessage `json:"header"`
+	Body    json.RawMessage `json:"body"`
+	Receipt json.RawMessage `json:"receipt"`
+	MQ      json.RawMessage `json:"mq"`
+	Just    json.RawMessage `json:"just"`
+}
+
+// vnResponse builds the message; emptyAsPointer selects the other Go representation of the parts the wire
+// cannot tell apart (a body without extrinsics, an empty receipt / message queue): present-and-empty
+// instead of absent.  Both must give the same bytes.
+func vnResponse(raw json.RawMessage, emptyAsPointer bool) *messages.BlockResponseMessage {
+	m := &messages.BlockResponseMessage{BlockData: []*types.BlockData{}}
+	for _, x := range vnList(raw) {
+		var v vnBlockDataVal
+		if err := json.Unmarshal(x, &v); err != nil {
+			panic("VERIF-INFRA blockdata value: " + err.Error())
+		}
+		bd := &types.BlockData{Hash: common.BytesToHash(vnBytes(v.Hash))}
+		if hl := vnList(v.Header); len(hl) == 1 {
+			f := vnList(hl[0])
+			d, un := vnDigest(f[4])
+			if un != "" {
+				panic("VERIF-INFRA blockdata header with " + un)
+			}
+			bd.Header = types.NewHeader(common.BytesToHash(vnBytes(f[0])), common.BytesToHash(vnBytes(f[2])), common.BytesToHash(vnBytes(f[3])), uint(vnUint(f[1])), d)
+		}
+		var exts []types.Extrinsic
+		for _, e := range vnList(v.Body) {
+			exts = append(exts, types.Extrinsic(vnBytes(e)))
+		}
+		if len(exts) > 0 || emptyAsPointer {
+			bd.Body = types.NewBody(exts)
+		}
+		if r := vnBytes(v.Receipt); len(r) > 0 || emptyAsPointer {
+			bd.Receipt = &r
+		}
+		if q := vnBytes(v.MQ); len(q) > 0 || emptyAsPointer {
+			bd.MessageQueue = &q
+		}
+		if jl := vnList(v.Just); len(jl) == 1 {
+			j := vnBytes(jl[0])
+			bd.Justification = &j
+		}
+		m.BlockData = append(m.BlockData, bd)
+	}
+	return m
+}
+
+func vnOptBytes(p *[]byte) string {
+	if p == nil {
+		return "absent"
+	}
+	return "0x" + vHex(*p)
+}
+
+func vnResponseString(m *messages.BlockResponseMessage) string {
+	var sb strings.Builder
+	for _, bd := range m.BlockData {
+		if bd == nil {
+			sb.WriteString("{nil}")
+			continue
+		}
+		hdr, body := "absent", "absent"
+		if bd.Header != nil {
+			var items []string
+			for _, it := range bd.Header.Digest {
+				items = append(items, it.String())
+			}
+			hdr = fmt.Sprintf("parent=%x number=%d state=%x ext=%x digest=[%s] hash=%s", bd.Header.ParentHash, bd.Header.Number, bd.Header.StateRoot,
+				bd.Header.ExtrinsicsRoot, strings.Join(items, "; "), bd.Header.Hash())
+		}
+		if bd.Body != nil && len(*bd.Body) > 0 { // "no body" and "no extrinsics" are the same message on the wire
+			body = fmt.Sprintf("%x", [][]byte(types.ExtrinsicsArrayToBytesArray(*bd.Body)))
+		}
+		rc, mq := vnOptBytes(bd.Receipt), vnOptBytes(bd.MessageQueue)
+		if rc == "0x" {
+			rc = "absent"
+		}
+		if mq == "0x" {
+			mq = "absent"
+		}
+		fmt.Fprintf(&sb, "{hash=%s header={%s} body=%s receipt=%s mq=%s just=%s}", bd.Hash, hdr, body, rc, mq, vnOptBytes(bd.Justification))
+	}
+	return "[" + sb.String() + "]"
+}
+
+// vnPbSort rewrites a protobuf message with its top-level fields stably sorted by field number (and, for
+// length-delimited fields listed in nested, the embedded message sorted likewise).  The wire format does
+// not fix the order of fields with different numbers (google.golang.org/protobuf writes the members of a
+// oneof after the plain fields, prost writes everything in field-number order), so the byte-for-byte
+// comparison with the TLA+ layout is made on this normal form.  Own splitter: varint keys, wire types 0/1/2/5.
+func vnPbSort(b []byte, nested map[int]bool) ([]byte, bool) {
+	type chunk struct {
+		f   int
+		raw []byte
+	}
+	varint := func(p []byte) (uint64, int) {
+		var x uint64
+		for i := 0; i < len(p) && i < 10; i++ {
+			x |= uint64(p[i]&0x7f) << (7 * uint(i))
+			if p[i] < 0x80 {
+				return x, i + 1
+			}
+		}
+		return 0, 0
+	}
+	var chunks []chunk
+	for len(b) > 0 {
+		k, n := varint(b)
+		if n == 0 {
+			return nil, false
+		}
+		f, wt := int(k>>3), int(k&7)
+		rest := b[n:]
+		var size int
+		var raw []byte
+		switch wt {
+		case 0:
+			_, m := varint(rest)
+			if m == 0 {
+				return nil, false
+			}
+			size = n + m
+		case 1:
+			size = n + 8
+		case 5:
+			size = n + 4
+		case 2:
+			l, m := varint(rest)
+			if m == 0 || uint64(len(rest)-m) < l {
+				return nil, false
+			}
+			size = n + m + int(l)
+			if nested[f] {
+				inner, ok := vnPbSort(rest[m:m+int(l)], nil)
+				if !ok || len(inner) != int(l) {
+					return nil, false
+				}
+				raw = append(append([]byte(nil), b[:n+m]...), inner...)
+			}
+		default:
+			return nil, false
+		}
+		if size > len(b) {
+			return nil, false
+		}
+		if raw == nil {
+			raw = b[:size]
+		}
+		chunks = append(chunks, chunk{f, raw})
+		b = b[size:]
+	}
+	sort.SliceStable(chunks, func(i, j int) bool { return chunks[i].f < chunks[j].f })
+	var out []byte
+	for _, c := range chunks {
+		out = append(out, c.raw...)
+	}
+	return out, true
+}
+
+func vnPbNorm(ty string, b []byte) []byte {
+	var nested map[int]bool
+	if ty == "blockresponse" {
+		nested = map[int]bool{1: true}
+	}
+	if out, ok := vnPbSort(b, nested); ok {
+		return out
+	}
+	return b
+}
+
 // ---- C14 part -------------------------------------------------------------------------
 
 func TestVerifNetMsgEnc(t *testing.T) {
@@ -184,6 +401,45 @@ func TestVerifNetMsgEnc(t *testing.T) {
 						fail("decodeBlockAnnounceMessage", m.String(), "error: "+err.Error(), "C14/announce/decode-error/"+cl)
 					} else if back.String() != m.String() || back.(*BlockAnnounceMessage).BestBlock != m.BestBlock {
 						fail("decodeBlockAnnounceMessage", m.String(), back.String(), "C14/announce/decode-value")
+					}
+				case "blockrequest":
+					res.Case("blockrequest", string(c.O.V))
+					m := vnRequest(c.O.V, false)
+					enc, err := m.Encode()
+					enc = vnPbNorm("blockrequest", enc)
+					res.Cmp()
+					if err != nil || !bytes.Equal(enc, exp) {
+						fail("BlockRequestMessage.Encode", vHex(exp), vHex(enc)+fmt.Sprint(err), "C14/blockrequest/encode")
+					}
+					// "no maximum" is the proto3 default 0: a pointer to 0 is the same message
+					if enc2, err := vnRequest(c.O.V, true).Encode(); err != nil || !bytes.Equal(vnPbNorm("blockrequest", enc2), exp) {
+						fail("BlockRequestMessage.Encode (Max = &0)", vHex(exp), vHex(enc2)+fmt.Sprint(err), "C14/blockrequest/encode/zero-max")
+					}
+					back := new(messages.BlockRequestMessage)
+					res.Cmp()
+					if err := back.Decode(exp); err != nil {
+						fail("BlockRequestMessage.Decode", vnRequestString(m), "error: "+err.Error(), "C14/blockrequest/decode-error")
+					} else if vnRequestString(back) != vnRequestString(m) {
+						fail("BlockRequestMessage.Decode", vnRequestString(m), vnRequestString(back), "C14/blockrequest/decode-value")
+					}
+				case "blockresponse":
+					res.Case("blockresponse", string(c.O.V))
+					m := vnResponse(c.O.V, false)
+					enc, err := m.Encode()
+					enc = vnPbNorm("blockresponse", enc)
+					res.Cmp()
+					if err != nil || !bytes.Equal(enc, exp) {
+						fail("BlockResponseMessage.Encode", vHex(exp), vHex(enc)+fmt.Sprint(err), "C14/blockresponse/encode")
+					}
+					if enc2, err := vnResponse(c.O.V, true).Encode(); err != nil || !bytes.Equal(vnPbNorm("blockresponse", enc2), exp) {
+						fail("BlockResponseMessage.Encode (present-and-empty parts)", vHex(exp), vHex(enc2)+fmt.Sprint(err), "C14/blockresponse/encode/empty-parts")
+					}
+					back := new(messages.BlockResponseMessage)
+					res.Cmp()
+					if err := back.Decode(exp); err != nil {
+						fail("BlockResponseMessage.Decode", vnResponseString(m), "error: "+err.Error(), "C14/blockresponse/decode-error")
+					} else if vnResponseString(back) != vnResponseString(m) {
+						fail("BlockResponseMessage.Decode", vnResponseString(m), vnResponseString(back), "C14/blockresponse/decode-value")
 					}
 				case "handshake":
 					res.Case("handshake", string(c.O.V))
@@ -254,6 +510,11 @@ func vnDecoders() map[string]vnDecoder {
 			}
 			return types.NewBodyFromBytes(b)
 		}, func(m any) ([]byte, error) { return scaleMarshalBody(m.(*types.Body)) }},
+		// protobuf layouts: the verdict and the canonical re-encoding come from CtPbDec
+		"blockrequest": {"blockrequest", func(b []byte) (any, error) { m := new(messages.BlockRequestMessage); err := m.Decode(b); return m, err },
+			func(m any) ([]byte, error) { return m.(*messages.BlockRequestMessage).Encode() }},
+		"blockresponse": {"blockresponse", func(b []byte) (any, error) { m := new(messages.BlockResponseMessage); err := m.Decode(b); return m, err },
+			func(m any) ([]byte, error) { return m.(*messages.BlockResponseMessage).Encode() }},
 	}
 }
 
@@ -308,8 +569,13 @@ func TestVerifNetMsgDec(t *testing.T) {
 				fail("decode", spec, pm, "C33/panic/"+where)
 				continue
 			}
-			if alloc > vnBudget(len(b)) {
-				fail("allocation", fmt.Sprintf("<= %d bytes for %d input bytes", vnBudget(len(b)), len(b)), fmt.Sprint(alloc), "C33/alloc/"+where)
+			isPb := c.O.Ty == "blockrequest" || c.O.Ty == "blockresponse"
+			budget := vnBudget(len(b))
+			if isPb {
+				budget += 1 << 20
+			}
+			if alloc > budget {
+				fail("allocation", fmt.Sprintf("<= %d bytes for %d input bytes", budget, len(b)), fmt.Sprint(alloc), "C33/alloc/"+where)
 			}
 			if err != nil {
 				if c.Res.Ok {
@@ -328,8 +594,13 @@ func TestVerifNetMsgDec(t *testing.T) {
 			// accepted by both: "Successfully decoded messages re-encode to equal messages"
 			re, err := d.encode(m)
 			res.Cmp()
-			if err != nil || !bytes.Equal(re, b[:c.Res.N]) {
-				fail("re-encode", vHex(b[:c.Res.N]), vHex(re)+fmt.Sprint(err), "C33/"+c.O.Ty+"/reencode")
+			want := b[:c.Res.N]
+			if isPb { // protobuf: unknown fields and repeated scalars are dropped; the canonical encoding of the value
+				want = c.Res.Enc.Bytes()
+				re = vnPbNorm(c.O.Ty, re)
+			}
+			if err != nil || !bytes.Equal(re, want) {
+				fail("re-encode", vHex(want), vHex(re)+fmt.Sprint(err), "C33/"+c.O.Ty+"/reencode")
 			}
 		}
 	}
